@@ -58,8 +58,12 @@ func Rewrite(filename string, src []byte, cfg Config) ([]byte, bool, error) {
 	// package clause and everything up to the first declaration is copied; imports are regenerated
 	out.WriteString("package " + f.Name.Name + "\n\n")
 	needSync := false
+	hasRuntime := false
 	for _, imp := range f.Imports {
 		p, _ := strconv.Unquote(imp.Path.Value)
+		if p == cfg.RuntimeImport {
+			hasRuntime = true
+		}
 		name := ""
 		if imp.Name != nil {
 			name = imp.Name.Name + " "
@@ -91,7 +95,10 @@ func Rewrite(filename string, src []byte, cfg Config) ([]byte, bool, error) {
 	if !r.changed {
 		return src, false, nil
 	}
-	fmt.Fprintf(&out, "import vsched %q\n\nvar _ = vsched.Active\n\n", cfg.RuntimeImport)
+	if !hasRuntime {
+		fmt.Fprintf(&out, "import vsched %q\n", cfg.RuntimeImport)
+	}
+	out.WriteString("\nvar _ = vsched.Active\n\n")
 	out.Write(body.Bytes())
 	res, err := format.Source(out.Bytes())
 	if err != nil {
